@@ -6,8 +6,23 @@ import json, os, shutil
 import vp
 
 
+def _norm_sets(o):
+    """JSON arrays that stand for sets (fields utxo, pool, tips...) are compared order-insensitively."""
+    if isinstance(o, dict):
+        o = {k: _norm_sets(v) for k, v in o.items()}
+        for k in ("utxo", "pool"):
+            if isinstance(o.get(k), list):
+                o[k] = sorted(o[k], key=lambda x: json.dumps(x))
+        return o
+    if isinstance(o, list):
+        return [_norm_sets(x) for x in o]
+    return o
+
+
 def diff_obs(exp, act, path=""):
     """Small structural diff between expected and actual observables."""
+    if path == "":
+        exp, act = _norm_sets(exp), _norm_sets(act)
     out = []
     if isinstance(exp, dict) and isinstance(act, dict):
         for k in sorted(set(exp) | set(act)):
